@@ -124,16 +124,19 @@ func (t *task) Start() {
 
 type scenario struct {
 	kind   string
-	n, q   int
-	log    *evlog.Log
-	bufs   sync.Map // goroutine id -> *evlog.Buf
-	tl     *tasklane.TaskLane
-	tlp    atomic.Pointer[tasklane.TaskLane]
-	cancel context.CancelFunc
-	ctx    context.Context // the lane's context: PushTask must report exactly ctx.Err()
-	tasks  []*task
-	tmu    sync.Mutex
-	quiet  atomic.Bool // no per-step events (maximal real concurrency); only a summary is recorded
+	waited bool // the scenario has called Wait itself (finish does not start a waiter)
+	// hook events are not recorded (push, task, status events still are)
+	hookQuiet atomic.Bool
+	n, q      int
+	log       *evlog.Log
+	bufs      sync.Map // goroutine id -> *evlog.Buf
+	tl        *tasklane.TaskLane
+	tlp       atomic.Pointer[tasklane.TaskLane]
+	cancel    context.CancelFunc
+	ctx       context.Context // the lane's context: PushTask must report exactly ctx.Err()
+	tasks     []*task
+	tmu       sync.Mutex
+	quiet     atomic.Bool // no per-step events (maximal real concurrency); only a summary is recorded
 	// gate: cancel inside the hook of event gateEv when it happens for the gateK-th time
 	gateEv       string
 	gateK        int32
@@ -176,7 +179,7 @@ var current atomic.Pointer[scenario]
 
 func hook(tl *tasklane.TaskLane, e string, lane int, tk tasklane.Task) {
 	s := current.Load()
-	if s == nil || s.quiet.Load() {
+	if s == nil || s.quiet.Load() || s.hookQuiet.Load() {
 		return
 	}
 	if own := s.tlp.Load(); own != nil && own != tl {
@@ -341,13 +344,17 @@ func (s *scenario) finish(cancelFirst bool) result {
 		s.quiesce("after-cancel") // pinned tasks still running: Wait must not have returned, producers released
 	}
 	done := make(chan struct{})
-	go func() {
-		b := s.buf()
-		b.Emit(ev{E: "wait.begin"})
-		s.tl.Wait()
-		b.Emit(ev{E: "wait.end"})
-		close(done)
-	}()
+	if s.waited {
+		close(done) // the scenario has called Wait itself
+	} else {
+		go func() {
+			b := s.buf()
+			b.Emit(ev{E: "wait.begin"})
+			s.tl.Wait()
+			b.Emit(ev{E: "wait.end"})
+			close(done)
+		}()
+	}
 	for i := 0; i < s.extraWaiters; i++ {
 		go s.tl.Wait()
 	}
@@ -682,6 +689,21 @@ func runAtRest(rng *rand.Rand, n, q, pin int, oneLane bool) result {
 	return s.finish(rng.Intn(2) == 0)
 }
 
+// runWide: a lane far wider than any machine has cores (one lane per tenant / per connection): one task pushed to every
+// lane index, every one of them has to be started.  Hook events are not recorded (push and task events only).
+func runWide(rng *rand.Rand, n, q int) result {
+	s := newScenario("wide", n, q, context.Background(), func(s *scenario) { s.hookQuiet.Store(true) })
+	s.tl.SetTimeout(2 * time.Second)
+	s.longTO = true
+	s.note = fmt.Sprintf("n=%d q=%d, one task per lane index", n, q)
+	for _, lane := range rng.Perm(n) {
+		s.push(1, s.mkTask(0, false, nil), lane)
+	}
+	s.quiesce("live")
+	s.status(90)
+	return s.finish(false)
+}
+
 // every worker busy, one more task parked per lane (all queue goroutines hold a task at the same
 // time); then all workers but one are released: the task of the lane whose worker stays busy must be
 // taken over by an idle worker.
@@ -714,6 +736,61 @@ func runAllBusy(rng *rand.Rand, n, q, stuck int, order []int) result {
 
 // the lane is cancelled while every worker runs a task, Wait is already blocked (several callers), every other
 // goroutine of the lane is gone - and then the last running tasks panic.
+// runWaitAfterNew: Wait called as early as a caller can call it - right after New, on a context cancelled just before or
+// just after New - with a single P, so that no goroutine of the lane has run yet when Wait is entered
+func runWaitAfterNew(rng *rand.Rand, n, q int, pre bool) result {
+	old := runtime.GOMAXPROCS(1)
+	defer runtime.GOMAXPROCS(old)
+	var setup func(*scenario)
+	if pre {
+		setup = func(s *scenario) { s.doCancel("before New") }
+	}
+	s := newScenario("waitafternew", n, q, context.Background(), setup)
+	s.note = fmt.Sprintf("Wait right after New (context cancelled %s New), GOMAXPROCS 1", map[bool]string{true: "before", false: "after"}[pre])
+	if !pre {
+		s.doCancel("right after New")
+	}
+	b := s.buf()
+	b.Emit(ev{E: "wait.begin"})
+	s.tl.Wait()
+	b.Emit(ev{E: "wait.end"})
+	s.waited = true
+	return s.finish(false)
+}
+
+// runCrowdedCancel: "after the context is cancelled" as a caller sees it - ctx.Err() is non-nil - while cancel() is still on
+// its way through the context's other children (a server's base context has one child per request in flight).  Observers
+// wait on ctx.Done() and push the moment it is closed.
+func runCrowdedCancel(rng *rand.Rand, n, q, siblings int) result {
+	s := newScenario("crowdedcancel", n, q, context.Background(), nil)
+	s.note = fmt.Sprintf("%d other contexts derived from the lane's context; observers push as soon as ctx.Done() is closed", siblings)
+	stops := make([]context.CancelFunc, 0, siblings)
+	for i := 0; i < siblings; i++ {
+		_, c := context.WithCancel(s.ctx)
+		stops = append(stops, c)
+	}
+	var wg sync.WaitGroup
+	for o := 0; o < 3; o++ {
+		wg.Add(1)
+		go func(o int) {
+			defer wg.Done()
+			b := s.buf()
+			<-s.ctx.Done() // closed first thing by cancel(), before it walks the children (ctx.Err() would wait for the walk)
+			b.Emit(ev{E: "cancel.seen", P: 90 + o})
+			for k := 0; k < 4; k++ {
+				s.push(90+o, s.mkTask(0, false, nil), (o+k)%n)
+			}
+		}(o)
+	}
+	time.Sleep(5 * time.Millisecond)
+	s.doCancel("crowded")
+	wg.Wait()
+	for _, c := range stops {
+		c()
+	}
+	return s.finish(false)
+}
+
 func runLastPanic(rng *rand.Rand, n int) result {
 	s := newScenario("lastpanic", n, 0, context.Background(), nil)
 	s.tl.SetTimeout(15 * time.Millisecond)
@@ -923,6 +1000,7 @@ func main() {
 	nlast := flag.Int("lastpanic", 10, "")
 	nprobe := flag.Int("burstprobe", 1500, "rounds of the burst-then-probe scenario")
 	npanicm := flag.Int("panicmarathon", 300000, "tasks in the panic marathon")
+	ncrowd := flag.Int("crowded", 2, "repetitions of the cancellation with many sibling contexts")
 	nburst := flag.Int("burst", 4, "")
 	burstPer := flag.Int("burstper", 60, "tasks per producer in a burst scenario")
 	flag.Parse()
@@ -952,6 +1030,7 @@ func main() {
 			}
 		}
 		w.Put(runAtRest(rng, 40, rep%2, 40, false)) // a wide lane (more than 32 workers), everything full
+		w.Put(runWide(rng, []int{300, 1100}[rep%2], 1+rep%2))
 		for _, n := range []int{2, 3} {
 			for stuck := 0; stuck < n; stuck++ {
 				w.Put(runAllBusy(rng, n, rep%2, stuck, rng.Perm(n)))
@@ -970,6 +1049,13 @@ func main() {
 		w.Put(runBurst(rng, 4, i%2, *burstPer))
 		w.Put(runQuietBurst(rng, 4, i%3, 40**burstPer))
 		w.Put(runQuietBurst(rng, 1+i%2, i%2, 20**burstPer)) // the tightest bound: one or two lanes, little or no buffer
+	}
+	for i := 0; i < *ncrowd; i++ {
+		w.Put(runCrowdedCancel(rng, 2+i%2, 1+i%2, 200000))
+	}
+	for i, n := range []int{1, 3, 16} {
+		w.Put(runWaitAfterNew(rng, n, i%2, true))
+		w.Put(runWaitAfterNew(rng, n, i%2, false))
 	}
 	w.Put(runBurstProbe(rng, *nprobe))
 	w.Put(runPanicShare(rng, 2))
